@@ -107,7 +107,7 @@ def body_bytes(spec) -> bytes:
         return spec["v"].encode("latin-1")
     if k == "str":
         return spec["v"].encode("utf-8")
-    if k in ("bytesio", "file", "notell", "badtell", "noseek"):
+    if k in ("bytesio", "file", "notell", "badtell", "noseek", "shortread"):
         return spec["v"].encode("latin-1")[spec.get("off", 0) :]
     if k in ("stringio", "textfile"):
         return spec["v"][spec.get("off", 0) :].encode("utf-8")
@@ -135,6 +135,25 @@ class _NoTell:
 class _BadTell(_NoTell):
     def tell(self):
         raise OSError("tell failed")
+
+    def seek(self, pos, whence=0):
+        self._p = pos
+        return pos
+
+
+class _ShortRead(_NoTell):
+    """A raw stream: read(n) may return fewer than n bytes although more is to come (legal for io.RawIOBase)."""
+
+    def read(self, n=-1):
+        if n is None or n < 0:
+            n = len(self._d) - self._p
+        n = min(n, 3)
+        out = self._d[self._p : self._p + n]
+        self._p += len(out)
+        return out
+
+    def tell(self):
+        return self._p
 
     def seek(self, pos, whence=0):
         self._p = pos
@@ -189,6 +208,10 @@ def make_body(spec, workdir: str | None = None):
         return f
     if k == "badtell":
         f = _BadTell(spec["v"].encode("latin-1"))
+        f._p = spec.get("off", 0)
+        return f
+    if k == "shortread":
+        f = _ShortRead(spec["v"].encode("latin-1"))
         f._p = spec.get("off", 0)
         return f
     if k == "noseek":
